@@ -270,6 +270,65 @@ class LongStrings(Part):
         ctx.cls("len>512" if len(s) > 512 else "len<=512")
 
 
+class FirstUseInterrupted(Part):
+    name = "first-use-interrupted"
+    custom = True
+    exhaustive = True
+    FIRSTS = ["\u3042\u30a2", "e\u0301\u0300", "a\u4e00\uff21\u200b", "\u1100\u115f\u1160"]
+    rule = ("in a fresh interpreter the first width measurement of the process (cell_len of a Hiragana/Katakana, a combining, a mixed CJK / fullwidth / zero-width or a Hangul-Jamo string) is "
+            "aborted by a KeyboardInterrupt raised at the K-th executed line of cells.py / _lru_cache.py, K = 1..120 (quick: every fourth); the program goes on and measures every code "
+            "point of the 256-blocks the string touches plus every 97th code point up to U+30000 with get_character_cell_size and cell_len, then the string again: all equal the table; "
+            "non-trivial = the interrupt fell inside the measurement")
+    budget = {"quick": (16, 1), "thorough": (16, 1)}
+
+    def _run(self, k, first):
+        import json
+        import os
+        import subprocess
+        import sys
+
+        here = os.path.dirname(os.path.dirname(os.path.abspath(__file__)))
+        p = subprocess.run([sys.executable, "-B", os.path.join(here, "first_use_c13.py"), str(k), json.dumps(first)], stdout=subprocess.PIPE, stderr=subprocess.PIPE, text=True, timeout=120,
+                           env=dict(os.environ, PYTHONHASHSEED="0"))
+        if p.returncode != 0:
+            return None, p.stderr[-400:]
+        return json.loads(p.stdout.strip().splitlines()[-1]), None
+
+    def run_shard(self, tier, shard, nshards, seed, stats, deadline, known):
+        import time as _t
+
+        jobs = [(k, first) for k in range(1, 121, 4 if tier == "quick" else 1) for first in self.FIRSTS]
+        n = nt = 0
+        sig = "C13/firstuse/wrong-after-interrupt"
+        for ji, (k, first) in enumerate(jobs):
+            if ji % nshards != shard:
+                continue
+            if _t.time() > deadline:
+                stats.capped = True
+                break
+            res, err = self._run(k, first)
+            if res is None:
+                stats.harness_error = "first_use_c13.py failed: %s" % err
+                break
+            n += 1
+            nt += 1 if res["interrupted"] else 0
+            if res["problems"] and sig not in stats.found and not known.match(sig):
+                stats.found[sig] = {"spec": {"k": k, "first": first}, "clause": "history", "size": 1, "part": self.name,
+                                    "detail": "after the first measurement (cell_len(%r)) was interrupted at line %d: %s" % (first, k, "; ".join(res["problems"]))}
+        stats.evaluations += n
+        stats.nontrivial_count_distinct += nt
+        if not stats.capped:
+            stats.done += 1
+        stats.samples.append((1, {"shard": shard, "processes": n, "example": {"k": 20, "first": self.FIRSTS[0]}}, "range"))
+
+    def replay(self, spec, ctx):
+        res, err = self._run(spec["k"], spec["first"])
+        if res is None:
+            raise RuntimeError(err)
+        if res["problems"]:
+            ctx.violation("history", "C13/firstuse/wrong-after-interrupt", "; ".join(res["problems"]))
+
+
 # --------------------------------------------------------------------------------------------- (c) (d)
 class Resize(Part):
     name = "resize"
@@ -576,4 +635,4 @@ class Shaping(Part):
                 ctx.nontrivial = True
 
 
-PARTS = [CodePoints(), History(), Resize(), Shaping(), LongStrings()]
+PARTS = [CodePoints(), History(), Resize(), Shaping(), LongStrings(), FirstUseInterrupted()]
